@@ -277,8 +277,30 @@ func (g *apiGen) update(db, coll string) bson.D {
 			}
 		}
 		return bson.D{{Key: "$set", Value: bson.D{{Key: k, Value: v}}}}
-	case n < 32:
+	case n < 28:
 		return bson.D{{Key: "$inc", Value: bson.D{{Key: k, Value: r.SmallNumber()}}}}
+	case n < 32:
+		// identity updates through operators that always record a change ($inc 0, $mul 1 of the stored type, $push of nothing):
+		// the result is identical, so zero documents are modified and no event is logged
+		var typed0, typed1 interface{} = int32(0), int32(1)
+		if len(docs) > 0 {
+			switch bsonkit.Get(docs[r.N(len(docs))], k).(type) {
+			case int64:
+				typed0, typed1 = int64(0), int64(1)
+			case float64:
+				typed0, typed1 = float64(0), float64(1)
+			}
+		}
+		switch r.N(4) {
+		case 0:
+			return bson.D{{Key: "$inc", Value: bson.D{{Key: k, Value: typed0}}}}
+		case 1:
+			return bson.D{{Key: "$mul", Value: bson.D{{Key: k, Value: typed1}}}}
+		case 2:
+			return bson.D{{Key: "$push", Value: bson.D{{Key: k, Value: bson.D{{Key: "$each", Value: bson.A{}}, {Key: "$slice", Value: int32(50)}}}}}}
+		default:
+			return bson.D{{Key: "$inc", Value: bson.D{{Key: k, Value: typed0}}}, {Key: "$max", Value: bson.D{{Key: "zz", Value: nil}}}}
+		}
 	case n < 40:
 		return bson.D{{Key: "$unset", Value: bson.D{{Key: k, Value: ""}}}}
 	case n < 43:
